@@ -6,6 +6,7 @@
 #include "score.h"
 #include "search.h"
 
+#include <cstring>
 #include <malloc.h>
 #include <memory>
 #include <unordered_map>
@@ -457,7 +458,12 @@ bool prop_C14(Tape& t, Report& rep)
     // zero outside a 24-bit window, so any table that indexes or verifies with only part of the key sees every pair
     // collide) do produce such pairs now and then: a history that contains one is dropped and counted.
     std::unordered_map<uint64_t, std::string> pawnKeys;
-    auto fullKeyCollision = [&](const ref::Pos& p, const Position& pos) {
+    const bool masked = !opt("zmask").empty();
+    auto fullKeyCollision = [&](const ref::Pos& p) {
+        if (!masked) return false;  // with full-entropy keys two structures never share a 64-bit key
+        // the key is taken from a freshly loaded position, never from the object under test (a stale incremental key there
+        // is a defect, not a collision)
+        Position pos(ref::to_fen(p));
         std::string structure;
         for (int s = 0; s < 64; ++s)
             if (ref::lower(p.b[s]) == 'p') structure += char('0' + s / 8), structure += char('a' + s % 8), structure += p.b[s];
@@ -467,7 +473,7 @@ bool prop_C14(Tape& t, Report& rep)
     if (!opt("zmask").empty()) rep.cls("c14:case_with_zobrist_entropy_window");
     for (int i = 0; i < nops; ++i)
     {
-        int op = t.weighted({5, 2, 2, 2, 2, 1});
+        int op = t.weighted({5, 2, 2, 2, 2, 1, 3});
         ref::Pos p;
         std::string what;
         if (op == 0)
@@ -499,6 +505,31 @@ bool prop_C14(Tape& t, Report& rep)
             what = "same_pawns_other_pieces";
             sawHit = true;
             rep.cls("c14:pawn_cache_hit_expected");
+        }
+        else if (op == 6 && !seen.empty())
+        {
+            // an earlier position minus ALL pieces of some kinds of one side (all sliders, all knights, the queens, every
+            // piece): whatever the evaluator computed per square for the earlier position and skips when "there is no such
+            // piece" is still in its members, and everything else stands on the same squares
+            p = seen[t.choose(uint32_t(seen.size()))];
+            bool white = t.flag();
+            static const char* SETS[] = {"brq", "n", "q", "r", "b", "nbrq", "rq"};
+            const char* set = SETS[t.choose(7)];
+            int removed = 0;
+            for (int sq = 0; sq < 64; ++sq)
+                if (p.b[sq] != '.' && ref::is_white(p.b[sq]) == white && strchr(set, ref::lower(p.b[sq])))
+                {
+                    p.b[sq] = '.';
+                    ++removed;
+                }
+            gen::fix_rights(p);
+            p.ep = -1;
+            gen::repair_not_to_move_check(p);
+            gen::fix_rights(p);
+            if (!removed || !ref::domain_violation(p).empty() || ref::insufficient_material(p)) continue;
+            what = std::string("earlier_position_minus_") + (white ? "white_" : "black_") + set;
+            sawHit = true;
+            rep.cls("c14:earlier_position_minus_a_piece_kind");
         }
         else if (op == 2 && !S.collisions.empty())
         {
@@ -551,7 +582,7 @@ bool prop_C14(Tape& t, Report& rep)
         }
         seen.push_back(p);
         Position pos(ref::to_fen(p));
-        if (fullKeyCollision(p, pos))
+        if (fullKeyCollision(p))
         {
             rep.cls("c14:excluded_full_pawn_key_collision");
             return true;
@@ -605,7 +636,7 @@ bool prop_C14(Tape& t, Report& rep)
             moves += " " + m.uci();
             if (!t.chance(1, 2) && !pawnMove) continue;
             if (ref::insufficient_material(rp)) continue;
-            if (fullKeyCollision(rp, played))
+            if (fullKeyCollision(rp))
             {
                 rep.cls("c14:excluded_full_pawn_key_collision");
                 return true;
